@@ -12,7 +12,7 @@ def _(self: Ref['mqtt.client.pubsubs.MQTTProtocol'], data: Bytes):
     requires(is_obj(self.addr))
     requires(is_bytes(self._buffer) and is_list_bytes(self.g_dispatched))
     requires(any_state(self))
-    modifies(all_but(), callbacks())
+    modifies(all_but(KEEP_RECV), callbacks())
     ensures(any_state(self))
     ensures(self.g_dispatched == old(as_list_bytes(self.g_dispatched)) + frames(old(as_bytes(self._buffer)) + data))
     ensures(self._buffer == rem(old(as_bytes(self._buffer)) + data))
@@ -48,7 +48,7 @@ def _(self: Ref['mqtt.client.pubsubs.MQTTProtocol'], data: Bytes):
     requires(is_obj(self.addr))
     requires(is_bytes(self._buffer) and is_list_bytes(self.g_dispatched))
     requires(any_state(self))
-    modifies(all_but(), callbacks())
+    modifies(all_but(KEEP_RECV), callbacks())
     ensures(any_state(self))
     ensures(self.g_dispatched == old(as_list_bytes(self.g_dispatched)) + frames(old(as_bytes(self._buffer)) + data))
     ensures(self._buffer == rem(old(as_bytes(self._buffer)) + data))
